@@ -16,6 +16,11 @@ CHECKS = {
          "Differential check of Humphrey's SHA-1, Base64 encode/decode, percent encode/decode and DateTime against independent reference implementations over the spaces the property names: SHA-1 every length 0..1100 x 3 contents + random to 64 KiB/1 MiB; Base64 all 1/2/3-byte inputs (2^24) and decode of all 65^4 four-symbol groups, plus random malformed strings; percent all bytes/byte pairs/short strings/%XY for every ASCII XY; dates every day 1970..9999 at 00:00:00 and 23:59:59, every second of 8 boundary days, random timestamps. Exhaustive on the enumerated spaces.",
          "Trusts the reference implementations in harness/src/common/refs.rs, which are self-tested on every run against RFC 3174 vectors and the cached `base64` and `httpdate` crates (disagreement = exit 2).",
          "DESIGN.md §5 C18"),
+ "C13": ("exploration",
+         "bounded-exhaustive enumeration + proptest grammar-based generation with single-edit mutation, differential against a strict RFC 8259 reference recogniser/evaluator; serialise/parse round-trip",
+         "Value::parse is compared (accept/reject and denoted value, member order included) with an independent strict RFC 8259 recogniser on: every string of <=5 tokens over a 16-token JSON alphabet, every number-like string of <=7 symbols, the repo's JSONTestSuite files, forced nesting depths around the 256 limit, and grammar-generated documents with generated whitespace/escape/number spellings plus their single-edit mutants. serialize/serialize_pretty(0..8) of generated Values (all Unicode, full finite f64 range) must be accepted by the reference, denote the same value, and parse back equal. Exhaustive on the enumerated spaces, sampled beyond.",
+         "Trusts the reference recogniser (cross-checked against serde_json on every case where they are expected to agree, and against JSONTestSuite y_/n_ expectations; disagreement = exit 2) and Rust's f64 parsing for number values.",
+         "DESIGN.md §5 C13"),
 }
 
 NOT_YET = "check not built yet (work in progress; see DESIGN.md §5 for the intended design)"
